@@ -67,9 +67,10 @@ fn build(ch: &mut Chooser, fmt: &str) -> (Vec<u8>, Meta, Vec<(String, String)>) 
                 b.sheets.push(sh);
             }
             let mut expn = vec![];
+            let far = !m.names.is_empty() && ch.flag("defined-names-point-at-the-last-cell-of-the-sheet");
             for (n, t) in &m.names {
                 let q = if t.chars().all(|c| c.is_ascii_alphanumeric()) { t.clone() } else { format!("'{}'", t.replace('\'', "''")) };
-                let v = format!("{q}!$B$2");
+                let v = if far { format!("{q}!$XFD$1048576") } else { format!("{q}!$B$2") };
                 b.defined_names.push((n.clone(), v.clone()));
                 expn.push((n.clone(), v));
             }
@@ -88,16 +89,19 @@ fn build(ch: &mut Chooser, fmt: &str) -> (Vec<u8>, Meta, Vec<(String, String)>) 
             if !m.names.is_empty() {
                 let mut xti = vec![];
                 if ch.flag("xlsb.formula-less-name-first") { b.names.push((MACRO_NAME.to_string(), vec![])); }
+                let far = ch.flag("defined-names-point-at-the-last-cell-of-the-sheet");
                 for (i, (n, t)) in m.names.iter().enumerate() {
                     let ix = ws_index(t) as i32;
                     xti.push((ix, ix));
                     // PtgRef3d: ixti(2) row(4) col(2, absolute)
-                    let mut rgce = vec![0x3A]; rgce.extend((i as u16).to_le_bytes()); rgce.extend(1u32.to_le_bytes()); rgce.extend(1u16.to_le_bytes());
+                    let (row, col, cell) = if far { (1_048_575u32, 16_383u16, "$XFD$1048576") } else { (1, 1, "$B$2") };
+                    let mut rgce = vec![0x3A]; rgce.extend((i as u16).to_le_bytes()); rgce.extend(row.to_le_bytes()); rgce.extend(col.to_le_bytes());
                     b.names.push((n.clone(), rgce));
-                    expn.push((n.clone(), format!("{t}!$B$2")));
+                    expn.push((n.clone(), format!("{t}!{cell}")));
                 }
                 b.extern_sheets = Some(xti);
             }
+            b.rel_ids_non_ascii = ch.flag("xlsb.relationship-ids-with-non-ascii-letters");
             (xlsb::write(&b, Method::Deflated), m, expn)
         }
         "xls" => {
@@ -116,12 +120,14 @@ fn build(ch: &mut Chooser, fmt: &str) -> (Vec<u8>, Meta, Vec<(String, String)>) 
             if !m.names.is_empty() {
                 let mut xti = vec![];
                 if ch.flag("xls.formula-less-name-first") { b.names.push((MACRO_NAME.to_string(), vec![])); }
+                let far = ch.flag("defined-names-point-at-the-last-cell-of-the-sheet");
                 for (i, (n, t)) in m.names.iter().enumerate() {
                     let ix = ws_index(t) as i16;
                     xti.push((ix, ix));
-                    let mut rgce = vec![0x3A]; rgce.extend((i as u16).to_le_bytes()); rgce.extend(1u16.to_le_bytes()); rgce.extend(1u16.to_le_bytes());
+                    let (row, col, cell) = if far { (65_535u16, 255u16, "$IV$65536") } else { (1, 1, "$B$2") };
+                    let mut rgce = vec![0x3A]; rgce.extend((i as u16).to_le_bytes()); rgce.extend(row.to_le_bytes()); rgce.extend(col.to_le_bytes());
                     b.names.push((n.clone(), rgce));
-                    expn.push((n.clone(), format!("{t}!$B$2")));
+                    expn.push((n.clone(), format!("{t}!{cell}")));
                 }
                 b.extern_sheets = Some(xti);
             }
@@ -158,7 +164,7 @@ fn names_agree(fmt: &str, got: &[(String, String)], exp: &[(String, String)]) ->
         if g.0 != e.0 { return false; }
         if g.1 == e.1 { return true; }
         if fmt == "xls" || fmt == "xlsb" {
-            if let Some(sheet) = e.1.strip_suffix("!$B$2") { return g.1 == format!("'{}'!$B$2", sheet.replace('\'', "''")); }
+            if let Some((sheet, cell)) = e.1.rsplit_once('!') { return g.1 == format!("'{}'!{cell}", sheet.replace('\'', "''")); }
         }
         false
     })
@@ -241,7 +247,7 @@ pub fn check(rep: &Report) {
     rep.rule("workbooks = 0..3 sheets x 9 names (XML specials, quotes, non-ASCII, a C1 control character, astral, 31 characters) x visibility x kind (xlsx/xlsb: work/chart/dialog/macro; xls dt 0/1/2/6; ods display) x 0..2 reference-valued defined names x 1900/1904 (+ a date cell on every worksheet) x prefix / name packing / xls substreams stored in reverse of BoundSheet8 order / a formula-less name record before the names (xls, xlsb); per format all choice vectors with <= d deviations from (one visible worksheet 'Sheet1') and the full product over one-sheet workbooks; non-trivial = non-default; distinct by file bytes");
     rep.assume("defined names are reference-valued (the one form all four readers decode); picture/VBA parts are not present");
     let stats = Mutex::new(Stats::default());
-    let dev = if t { 4 } else { 3 };
+    let dev = if t { 5 } else { 3 };
     FORMATS.par_iter().for_each(|fmt| {
         crate::engine::crumb::set_job(&format!("C16 format={fmt}"));
         let mut st = Stats::default();
